@@ -16,6 +16,7 @@ def build(u):
     u.load_contracts('contracts/u_lexd.vc')
     u.raw('use std::mem::MaybeUninit;')
     u.include('prelude/lexer_std.rs')
+    u.include('prelude/usize_minmax.rs')
     u.include('prelude/delta_uninit.rs')
     u.include('prelude/peek_iter.rs')
     u.emit(AL, 'enum Error', keep_derives=['Debug'])
